@@ -59,6 +59,10 @@ CHECKS = {
    technique='stateless exhaustive exploration of thread interleavings of the real code under a cooperative scheduler (preemption-bounded, state-hash pruned), plus a free-running ThreadSanitizer pass',
    text='All schedules of 2-3 harness threads over the interposed synchronisation points of the real library (GSL handler save/disable/restore, quadrature entry/exit, mutex lock/unlock) up to preemption bound 2 (quick) / 3-4 (thorough) are executed, each in a forked child: no abort, no deadlock, handler restored, sequential results; whole-generator harnesses compare each thread\'s events with its sequential events. A separate unserialised ThreadSanitizer run of 8 concurrent generators catches unsynchronised accesses.',
    note='Trusted: preemption only at interposed points, sequential consistency; TSan for everything below; glibc/libstdc++ internals are not scheduled.'),
+ 'C13': dict(level='fault_enumeration', ref='DESIGN.md §2 C13', engine='c13',
+   technique='exhaustive enumeration of every write()-level kill point and torn write of the CLI run (LD_PRELOAD shim) plus enumerated command lines compared byte for byte with an in-process API recomputation',
+   text='Every write()/writev() to the event and companion files of several command lines is numbered through an LD_PRELOAD shim and the run is repeated with the process killed before each write and with that write torn (1 byte, half): the completion marker may only be present if the event file equals the complete one, and what is left is a prefix. 140+ command lines (accepted and refused, one-sided windows, activity, MDL) are run twice on the binary built from /repo and compared byte for byte with the library API driven in-process with the same seed.',
+   note='Trusted: process kill only (no reordering of completed writes, no ENOSPC); refusal rules from README/--help.'),
 }
 NOT_YET = {
 }
@@ -104,6 +108,7 @@ def main():
             {'name': 'c14', 'path': 'checks/c14.cc', 'serves_properties': ['C14'], 'kind_free_text': 'gA dataset enumerator and sampler grid'},
             {'name': 'c05', 'path': 'checks/c05.cc', 'serves_properties': ['C05'], 'kind_free_text': 'catalogue enumerator and name-vs-scheme differential'},
             {'name': 'c12', 'path': 'checks/c12.cc', 'serves_properties': ['C12'], 'kind_free_text': 'cooperative scheduler (engine/sched.hpp) + preemption-bounded explorer over link-time interposed sync points; checks/c12_tsan.cc race pass'},
+            {'name': 'c13', 'path': 'checks/c13.py', 'serves_properties': ['C13'], 'kind_free_text': 'CLI enumerator, API-equivalent recomputation (checks/c13api.cc), kill-point shim (engine/killpt/kp.c)'},
             {'name': 'd0ref', 'path': 'tools/f2cxx.py', 'serves_properties': ['C01', 'C02', 'C06'], 'kind_free_text': 'reference model generated from resources/code/decay0/decay0_2020-04-20.for'},
         ],
         'checks': checks,
